@@ -163,11 +163,19 @@ func c17LoadStaged(sdl string, loads []string, backend string) (*ggql.Root, erro
 	if err != nil {
 		return nil, err
 	}
-	for _, l := range loads[1:] {
+	for li, l := range loads[1:] {
 		var perr error
 		pv, _ := run.Protect(func() {
 			_ = root.ResolveString(c17FullQuery, "Full", map[string]interface{}{"dep": true})
 			_ = root.ResolveString(c17FullQuery, "Full", map[string]interface{}{"dep": false})
+			// a document the root turns down between two it accepts (it names other root types and defines them, then
+			// breaks off): what introspection describes afterwards is the accepted schema, nothing of this one
+			switch li % 3 {
+			case 0:
+				_ = root.ParseString("type ZzOtherRoot { zz: Int }\nschema { query: ZzOtherRoot mutation: ZzOtherRoot }\ntype ZzBroken {")
+			case 1:
+				_ = root.ParseString("type ZzOtherRoot { zz: Int }\nschema { query: ZzOtherRoot }\ntype ZzBad { f: ZzNopeType }")
+			}
 			perr = root.ParseString(l)
 		})
 		if pv != nil {
